@@ -263,7 +263,10 @@ def compare_read(summary, a, b, ignore_usize=False):
     unm = set(c['name'] for c in summary['classes'] if c.get('modelled') is False)
     if unm and any(x[0] in unm for x in ob):
         return True     # the file holds an object of a class the translator could not model: nothing to compare with
-    if ignore_usize:
+    # the model marks a parser that stopped before the end of the stream (`early=1`): the application then closes the file while
+    # the inflater may still be counting containers, so the implementation's counter is anything up to the model's
+    early = da.pop('early', None)
+    if ignore_usize or (early and da.get('usize', '').isdigit() and db.get('usize', '').isdigit() and int(db['usize']) <= int(da['usize'])):
         da.pop('usize', None); db.pop('usize', None)
     if da != db or sa != sb or len(oa) != len(ob):
         return False
